@@ -136,6 +136,9 @@ pub struct Client {
     pub shutdown_acked: bool,
     pub log_messages: u64,
     pub protocol_errors: Vec<String>,
+    /// the editor answers workspace/configuration and client/registerCapability with an error
+    pub config_errors: bool,
+    pub error_answers: u64,
     /// answers given out of request order
     pub answers_out_of_order: u64,
     pub last_answered_seq: u64,
@@ -416,6 +419,10 @@ impl Client {
             self.answers_out_of_order += 1;
         }
         self.last_answered_seq = self.last_answered_seq.max(req.seq);
+        if self.config_errors && matches!(req.method.as_str(), "workspace/configuration" | "client/registerCapability") {
+            self.error_answers += 1;
+            return (json!({"jsonrpc":"2.0","id":req.id,"error":{"code":-32601,"message":"Method not found"}}), req);
+        }
         let result = match req.method.as_str() {
             "workspace/configuration" => {
                 let n = req.params["items"].as_array().map(|a| a.len()).unwrap_or(1);
